@@ -149,4 +149,62 @@ def upnSlices_v0 (b : Bytes) (upnLen upnOff dnsLen dnsOff : Nat) : Outcome (Byte
     let d ← goSlice b dnsOff (((dnsOff + dnsLen) % 65536 : Nat) : Int)
     pure (u, d)
 
+/-! ## keytab.Keytab.Unmarshal: the walk over the records of the file -/
+
+/-- a 32-bit signed integer from four octets in the byte order of the file's format version -/
+def i32 (le : Bool) (s : Bytes) : Int :=
+  let u : Nat := (if le then s.reverse else s).foldl (fun a x => a * 256 + x.toNat) 0
+  if u ≥ 2147483648 then (u : Int) - 4294967296 else u
+
+/-- `readInt32(b, &n, …)`: both bounds are checked before the slice expression -/
+def readI32 (b : Bytes) (n : Int) (le : Bool) : Outcome (Int × Int) :=
+  if n < 0 then err "negative"
+  else if n + 4 > b.length then err "short"
+  else do
+    let s ← goSlice b n (n + 4)
+    pure (i32 le s, n + 4)
+
+/-- Go's `l * -1` on an int32: the least value is its own negation -/
+def neg32 (l : Int) : Int := if l = -2147483648 then -2147483648 else -l
+
+/-- the record walk from position `n` with the record length `l` just read: the byte ranges of the
+    entries in file order. A negative length is a hole that is skipped; the fields of an entry are read
+    from its own slice by readers that check every bound (readInt8/16/32, readBytes). Fuel: one unit
+    per record; every record moves `n` forward by at least 4, so `b.length` units are always enough. -/
+def walk (b : Bytes) (le : Bool) : Nat → Int → Int → Outcome (List Bytes)
+  | 0, _, _ => ok []
+  | f+1, n, l =>
+    if l = 0 then ok []
+    else
+      let step : Outcome (Int × List Bytes) :=
+        if l < 0 then ok (n + neg32 l, [])
+        else if n < 0 then err "negative"
+        else if n + l > b.length then err "short"
+        else do
+          let eb ← goSlice b n (n + l)
+          pure (n + l, [eb])
+      step >>= fun (n', es) =>
+        -- `if n < 0 || n > len(b) || len(b[n:]) < 4 { break }`: b[n:] is only evaluated when 0 ≤ n ≤ len(b)
+        if n' < 0 ∨ n' > b.length then ok es
+        else
+          goSliceFrom b n' >>= fun tail =>
+            if tail.length < 4 then ok es
+            else
+              readI32 b n' le >>= fun (l', n'') =>
+                walk b le f n'' l' >>= fun rest => ok (es ++ rest)
+
+/-- `Keytab.Unmarshal` up to the entries' own fields -/
+def ktRecords (b : Bytes) (littleEndianHost : Bool) : Outcome (List Bytes) :=
+  if b.length < 2 then err "short"
+  else do
+    let b0 ← goIdx b 0
+    if b0 ≠ 5 then err "first-byte"
+    else do
+      let ver ← goIdx b 1
+      if ver ≠ 1 ∧ ver ≠ 2 then err "version"
+      else if b.length = 2 then ok []
+      else
+        let le : Bool := ver == 1 && littleEndianHost
+        readI32 b 2 le >>= fun (l, n) => walk b le b.length n l
+
 end Krb.Total
